@@ -231,13 +231,11 @@ MdsOf(c) ==
    within one of flipping.  Every comparison is linear with unit coefficients,
    so these are exactly the calls where InBounds or a guard changes between the
    call and a neighbour (+-1 in one argument), +-1. *)
-Slacks(c) ==
+Slacks(c) ==          \* one entry per direction (comparisons that differ by a constant < 3 share one)
   CASE c.ep = "AEAD_decrypt" -> <<c.x - Tag, Scratch - c.x, Scratch + Tag - c.x>>
     [] c.ep = "AEAD_encrypt" -> <<Scratch - c.x, Scratch - Tag - c.x>>
-    [] c.ep = "HP_apply"     -> <<c.x - 1, c.x - c.pn, c.x - 1 - c.pn, c.y - (PnMax - c.pn + SampleLen),
-                                  Scratch - c.x, Scratch - c.x - c.y>>
-    [] c.ep = "HP_remove"    -> <<c.x - (c.y + PnMax + SampleLen), c.x - (c.y + PnMax),
-                                  Scratch - c.y - PnMax, Scratch - c.y - c.pn>>
+    [] c.ep = "HP_apply"     -> <<c.x - 1 - c.pn, c.y - (PnMax - c.pn + SampleLen), Scratch - c.x, Scratch - c.x - c.y>>
+    [] c.ep = "HP_remove"    -> <<c.x - (c.y + PnMax + SampleLen), c.x - (c.y + PnMax), Scratch - c.y - PnMax>>
 NK(k) == k >= -2 /\ k <= 1
 Near(c)   == LET s == Slacks(c) IN \E i \in DOMAIN s : NK(s[i])
 Corner(c) == LET s == Slacks(c) IN Cardinality({s[i] : i \in {j \in DOMAIN s : NK(s[j])}}) >= 2
